@@ -206,7 +206,21 @@ func VerifC06FuncValue() {
 		if zzverif.Choose("b.null", 3) > 0 {
 			b, y = verifNumArg("b")
 		}
-		got, err := call(name, a, b)
+		// an optional third argument (int8)
+		three := zzverif.Choose("three", 2) == 1
+		var c any
+		var z float64
+		if three {
+			ci := int(int8(zzverif.NondetU64("c.i", 8)))
+			c, z = ci, float64(ci)
+		}
+		var got any
+		var err error
+		if three {
+			got, err = call(name, a, b, c)
+		} else {
+			got, err = call(name, a, b)
+		}
 		zzverif.Assert(err == nil, "conditional-function-no-error")
 		if a == nil || b == nil {
 			zzverif.Assert(got == nil, "greatest-least-null-if-any-argument-null")
@@ -217,8 +231,11 @@ func VerifC06FuncValue() {
 		}
 		g, ok := verifF(got)
 		want := x
-		if name == "greatest" && y > x || name == "least" && y < x {
+		if name == "greatest" && y > want || name == "least" && y < want {
 			want = y
+		}
+		if three && (name == "greatest" && z > want || name == "least" && z < want) {
+			want = z
 		}
 		zzverif.Assert(ok && g == want, "greatest-least-is-the-numeric-extreme")
 	}
@@ -261,4 +278,34 @@ func verifSameArg(got, want any) bool {
 		return ok && len(g) == len(w)
 	}
 	return false
+}
+
+// VerifC06ConcatRouting: whether `p + q` is treated as string concatenation depends on the CURRENT row
+// only (text operands -> concatenation, numeric operands -> addition): the routing predicate of the
+// bridge answers for a row what a fresh bridge answers for it, whatever rows were seen before.
+func VerifC06ConcatRouting() {
+	exprText := "p + q"
+	mk := func(tag string) map[string]any {
+		row := map[string]any{}
+		for _, col := range []string{"p", "q"} {
+			switch zzverif.Choose(tag+col+".kind", 3) {
+			case 0:
+				row[col] = int(int8(zzverif.NondetU64(tag+col+".i", 8)))
+			case 1:
+				row[col] = zzverif.NondetBytes(tag+col+".s", 1)
+			}
+		}
+		return row
+	}
+	shared := NewExprBridge()
+	r1 := mk("a")
+	r2 := mk("b")
+	_ = shared.isStringConcatenationExpression(exprText, r1)
+	got := shared.isStringConcatenationExpression(exprText, r2)
+	fresh := NewExprBridge().isStringConcatenationExpression(exprText, r2)
+	zzverif.ObserveB("concat", got)
+	zzverif.Assert(got == fresh, "concatenation-routing-depends-on-the-current-row-only")
+	_, ps := r2["p"].(string)
+	_, qs := r2["q"].(string)
+	zzverif.Assert(got == (ps || qs), "concatenation-iff-an-operand-is-text")
 }
